@@ -9,6 +9,8 @@
                           declared prefixes unique per element) and no adjacent text nodes
     C03_sound_document    for `parse` also exactly one element and no text at top level
     C03_reject_*          one theorem per constraint the code enforces
+    C03_reject_endtag_prefix, C03_open_prefix_pushed, C03_open_prefixes_step   an end tag repeats the
+                          start tag's prefix AS WRITTEN (stack of written prefixes)
   Closed examples (token lists of the real tokenizer, replayed on the implementation by the
   `build` suite) accompany them.
 -/
@@ -18,6 +20,7 @@ import XotModel.Lemmas.Parse
 import XotModel.Lemmas.ParseContent
 import XotModel.Lemmas.ParseWitnessData
 import XotModel.Lemmas.TokenShapeB
+import XotModel.Lemmas.ParsePrefixes
 
 namespace XotModel.Props
 open XotModel XotModel.Witness
@@ -117,7 +120,7 @@ theorem C03_reject_stray_close (b : Builder) (p l sp : StrSpan) (n : Nat) (env1 
   rw [hname]
   simp [hpar]
 
-/-- An end tag whose name is not the name of the open element. -/
+/-- An end tag whose (expanded) name is not the name of the open element. -/
 theorem C03_reject_mismatched_close (b : Builder) (p l sp : StrSpan) (n m : Nat) (env1 : Env)
     (hcur : b.cur.value = .element n)
     (hname : elementNameId b.env b.nsStack p.text l.text p.span = .ok (env1, m)) (hne : n ≠ m) :
@@ -128,6 +131,49 @@ theorem C03_reject_mismatched_close (b : Builder) (p l sp : StrSpan) (n m : Nat)
   split
   · rfl
   · simp [hne]
+
+/-- C03_reject_endtag_prefix: an end tag whose WRITTEN prefix is not the one written in the start
+    tag of the open element (`open_prefixes.last()`) is rejected with `InvalidCloseTag`, whatever
+    the bindings are — also when both prefixes are bound to one namespace, so that the name ids
+    agree (`m = n`), and also default namespace against prefix, in both directions. -/
+theorem C03_reject_endtag_prefix (b : Builder) (p l sp : StrSpan) (n m : Nat) (env1 : Env)
+    (hcur : b.cur.value = .element n)
+    (hname : elementNameId b.env b.nsStack p.text l.text p.span = .ok (env1, m))
+    (hpfx : b.openPrefixes.head? ≠ some p.text) :
+    b.closeElement p l sp = .err (.invalidCloseTag p.text l.text (Span.fromPrefixName p l)) env1 := by
+  unfold Builder.closeElement
+  rw [hname]
+  simp only [hcur]
+  split
+  · rfl
+  · have : samePrefix b.openPrefixes p.text = false := by
+      simp only [samePrefix, beq_eq_false_iff_ne, ne_eq]; exact hpfx
+    simp [this]
+
+/-- `open_prefixes` is the stack of the prefixes written in the start tags of the open elements:
+    `open_element` pushes the prefix of the pending start tag … -/
+theorem C03_open_prefix_pushed {b b1 : Builder} {eb : ElementBuilder} (heb : b.eb = some eb)
+    (h : b.openElement = .ok b1) : b1.openPrefixes = eb.pfx :: b.openPrefixes ∧ ∃ n, b1.cur.value = .element n :=
+  openElement_openPrefixes heb h
+
+/-- … an accepted end tag pops it (and was written with exactly that prefix), `/>` pushes and pops,
+    and no other token touches it. -/
+theorem C03_open_prefixes_step {b b' : Builder} {t : Token} (h : b.step t = .ok b') :
+    match t with
+    | .elementEnd .open _ => ∃ eb, b.eb = some eb ∧ b'.openPrefixes = eb.pfx :: b.openPrefixes
+    | .elementEnd (.close p _) _ =>
+      (∃ n, b.cur.value = .element n) → b.openPrefixes = p.text :: b'.openPrefixes
+    | _ => b'.openPrefixes = b.openPrefixes :=
+  openPrefixes_step h
+
+/-- `<p:a xmlns:p='u' xmlns:q='u'></q:a>` and `<a xmlns='u' xmlns:q='u'></q:a>` are rejected at the
+    end tag (before /repo cea05a7 both were accepted). -/
+example : (build .document endTagOtherPrefixLen Env.fresh endTagOtherPrefix none).err? =
+    some (.invalidCloseTag ['q'] ['a'] ⟨31, 34⟩) := by
+  rw [build_eq_buildE]; decide +kernel
+example : (build .document endTagDefaultVsPrefixLen Env.fresh endTagDefaultVsPrefix none).err? =
+    some (.invalidCloseTag ['q'] ['a'] ⟨27, 30⟩) := by
+  rw [build_eq_buildE]; decide +kernel
 
 /-- A prefix that no open element declares (element names, in start and end tags). -/
 theorem C03_reject_unknown_prefix (env : Env) (stack : NsStack) (pfx name : Str) (sp : Span)
@@ -249,20 +295,30 @@ example : (build .document signedRefLen Env.fresh signedRef none).err? =
     some (.invalidEntity ['+', '6', '5'] ⟨3, 9⟩) := by
   rw [build_eq_buildE]; decide +kernel
 
-/-- A second `xml:id` with a value already seen (values are compared after normalisation). -/
+/-- A second `xml:id` with a value already seen: an attribute whose NAME ID is that of xml:id
+    (expanded name (XML namespace, `id`), whatever prefix spells it) is normalised first, and the
+    normalised value is what is compared and reported. -/
 theorem C03_reject_duplicate_id (stack : NsStack) (node : Path) (st : AttrLoop) (ab : AttributeBuilder)
     (rest : List AttributeBuilder) (env1 : Env)
     (hname : attributeNameId st.env stack ab.pfx ab.name ab.prefixSpan = .ok (env1, Env.xmlIdName))
     (hnew : ¬ Env.xmlIdName ∈ st.seenNames)
-    (hseen : st.seenIds.contains ab.value = true) :
-    addAttributes stack node st (ab :: rest) = .err (.duplicateId ab.value ab.valueSpan) env1 := by
-  have hm : ab.value ∈ st.seenIds := by simpa using hseen
-  simp [addAttributes, hname, hm, hnew, Env.xmlIdName] at *
-  simp [hnew, hm]
+    (hseen : st.seenIds.contains (normalizeXmlId ab.value) = true) :
+    addAttributes stack node st (ab :: rest) =
+      .err (.duplicateId (normalizeXmlId ab.value) ab.valueSpan) env1 := by
+  have hm : normalizeXmlId ab.value ∈ st.seenIds := by simpa using hseen
+  have hc : st.seenNames.contains Env.xmlIdName = false := by simpa using hnew
+  simp only [addAttributes, hname, hc, Bool.false_eq_true, if_false, xmlIdValue, BEq.rfl, if_true, hseen,
+    Bool.and_self]
 
 /-- `<a xml:id='i'><b xml:id='  i '/></a>` is rejected. -/
 example : (build .document dupIdSpacesLen Env.fresh dupIdSpaces none).err? =
     some (.duplicateId ['i'] ⟨25, 29⟩) := by
+  rw [build_eq_buildE]; decide +kernel
+
+/-- `<a xmlns:p='http://www.w3.org/XML/1998/namespace' p:id=' x '><b xml:id='x'/></a>` is rejected
+    (before /repo 7427b0a the first value stayed ` x ` and the text was accepted). -/
+example : (build .document dupIdViaOtherPrefixLen Env.fresh dupIdViaOtherPrefix none).err? =
+    some (.duplicateId ['x'] ⟨72, 73⟩) := by
   rw [build_eq_buildE]; decide +kernel
 
 /-- C03_reject_truncated: input that ends inside a start tag. -/
